@@ -159,7 +159,7 @@ CHECKS["C21"] = ("exploration",
     "Trusted: TLC, vlib/threadrt.py (class-level wrappers installed from the harness). Thread schedules are those the OS produces: exploration level.",
     "DESIGN.md section 4 C21")
 CHECKS["C22"] = ("model_checking",
-    "orchestrated DPOP solves of TLC-generated DCOPs through the real Orchestrator/OrchestratedAgents (deterministic agent-step runtime with seeded interleavings, plus real threads), outcome judged by TLC against Dcop.tla (Judge_C22)",
+    "orchestrated DPOP solves of TLC-generated DCOPs through the real Orchestrator/OrchestratedAgents (deterministic agent-step runtime with seeded interleavings, plus real threads), outcome judged by TLC against Dcop.tla (Judge_C22); TLC model checking of Orchestration.tla (the orchestration protocol at event level) and validation of every run's event trace against it (Judge_Orch)",
     "TLC (Gen_Dcop) draws DCOPs over 17 shapes with their optimum; each is solved with DPOP through the real orchestrator under oneagent / adhoc / gh_cgdp / random valid "
     "distributions on 1-3 agents, in vlib/orchrt.py (real objects, threads not started, seeded random interleaving of agent loop iterations through registration, "
     "deployment, run, value collection, end-of-computation and stop) and in real-thread runs with perturbed switch interval; TLC checks status OK (not TIMEOUT, not "
